@@ -49,7 +49,7 @@ type bucketInfo struct {
 }
 
 func resolveBucket(p *Prog, r *Report, rule string) *bucketInfo {
-	b := &bucketInfo{typ: p.Named("ratelimit", "tokenBucket"), setTyp: p.Named("ratelimit", "TokenBucketSet")}
+	b := &bucketInfo{typ: namedRole(p, "ratelimit", "tokenBucket"), setTyp: p.Named("ratelimit", "TokenBucketSet")}
 	if b.typ == nil || b.setTyp == nil {
 		r.Anchor(rule, "ratelimit.tokenBucket / TokenBucketSet", "types not found")
 		return nil
